@@ -143,6 +143,8 @@ def main():
         key = (r['contract'], clause_of(o['id']))
         if key in confirmed_keys:
             continue
+        if getattr(reg.contract_for(r['contract'], r.get('receiver')), 'standin', True) is False:
+            continue        # no concrete environment for this function: the obligation itself is the report
         req = {'mode': 'replay', 'contract': r['contract'], 'receiver': r.get('receiver'), 'case': r['case'],
                'model': o.get('model', {}), 'extra': o.get('model_extra', {}), 'tags': o.get('tags', []),
                'clauses': None}
@@ -178,9 +180,10 @@ def main():
         bounded_info[cname] = {k: res.get(k) for k in ('evaluations', 'in_domain', 'exhaustive', 'bounds', 'status')}
         if res.get('status') == 'harness-error':
             print('NOTE: bounded stand-in for %s could not run: %s' % (cname, (res.get('stderr') or '')[-300:].replace('\n', ' | ')))
-        fails = res.get('failures') or []
+        fails = [f for f in (res.get('failures') or []) if any(tagged('post.' + c) for c in f.get('failed', []))]
         if fails:
             f = fails[0]
+            f['failed'] = [c for c in f['failed'] if tagged('post.' + c)]
             violations.append({'contract': cname, 'obligation': 'post.' + f['failed'][0], 'case': None, 'replay': f,
                                'kind': 'bounded-search-counterexample', 'solver': [x[1]['tried'] for x in items][:3]})
             confirmed_keys.add((cname, f['failed'][0]))
